@@ -36,12 +36,15 @@ def c18_extra(prop,tier,seed,repo,reg,known):
 def c16_extra(prop,tier,seed,repo,reg,known):
   from zoo.run import run_vcd
   return run_vcd(repo,seed,tier)
+def c10_extra(prop,tier,seed,repo,reg,known):
+  from zoo.run import run_tc
+  return run_tc(repo,seed,tier)
 def rtl_extra(prop,tier,seed,repo,reg,known):
   from .rtl_run import run_specs
   return run_specs([sp for sp in rtl_specs() if prop in sp.prop_ids],tier,repo)
 
 
-FIX_COMMITS=['052e08e','9c79cb1','dce12fb','1afafb3','61a0063','7632b61','95f312b','22cc801']
+FIX_COMMITS=['052e08e','9c79cb1','dce12fb','1afafb3','61a0063','7632b61','95f312b','22cc801','ef02dce','8ef5b7c']
 
 PROPERTIES={
  'C04': dict(level='proof',
@@ -123,4 +126,9 @@ PROPERTIES={
    note="dump_vcd_inner's change compression is not under a discharged contract (strings and eval are outside pyvc). Labelled bounded.",
    explanation="executable statement of the property on enumerated designs and seeded inputs",
    extra=['contracts:c16_extra'], require_cover=False, assumptions=["file writes are not reordered"]),
+ 'C10': dict(level='other',
+   claim="Mixed. Proved (all non-negative integers): RTLIRDataType._get_nbits_from_value returns the least width that holds the literal. Bounded stand-in: for 618 update blocks (assignments, + & == <, conditional expressions with explicit and literal branches also nested in an addition, ascending and descending constant-bound loops, temporaries; Bits4/Bits8 signals, a slice, literals 0..256) every block the RTLIR type checker accepts simulates over a 24-point input grid without any bitwidth or implicit-truncation error, and every block whose simulation raises a width mismatch between explicitly sized operands is rejected.",
+   note="The checker's visitor methods are not under discharged contracts; the whole-program induction (static width == runtime width for every sub-expression) is not machine-checked; struct fields, indices and L3+ features are not in the probe family. The method copy BehavioralRTLIRTypeCheckVisitorL1._get_nbits_from_value is checked through the probes only. Labelled bounded.",
+   explanation="literal-width function proved; acceptance/rejection verdicts compared with simulation on an enumerated family of blocks",
+   extra=['contracts:c10_extra'], require_cover=False, assumptions=["blocks use no explicit width-changing cast and no shifts (as the statement excludes them)"]),
 }
